@@ -8,11 +8,11 @@ import (
 	"fmt"
 	"hash/fnv"
 	"os"
+	"regexp"
+	"runtime"
 	"sort"
 	"strconv"
 	"strings"
-	"regexp"
-	"runtime"
 	"sync"
 	"sync/atomic"
 	"time"
@@ -257,12 +257,27 @@ func (c *Collector) NotExhaustive(why string) {
 	c.r.Notes["not_exhaustive"] = why
 	c.mu.Unlock()
 }
-func (c *Collector) AddStates(n int64)          { c.progress.Add(1); c.mu.Lock(); c.r.States += n; c.mu.Unlock() }
-func (c *Collector) AddTransitions(n int64)     { c.progress.Add(1); c.mu.Lock(); c.r.Transitions += n; c.mu.Unlock() }
+func (c *Collector) AddStates(n int64) {
+	c.progress.Add(1)
+	c.mu.Lock()
+	c.r.States += n
+	c.mu.Unlock()
+}
+func (c *Collector) AddTransitions(n int64) {
+	c.progress.Add(1)
+	c.mu.Lock()
+	c.r.Transitions += n
+	c.mu.Unlock()
+}
 func (c *Collector) AddTraces(n int64)          { c.mu.Lock(); c.r.Traces += n; c.mu.Unlock() }
 func (c *Collector) AddExtra(k string, n int64) { c.mu.Lock(); c.r.Extra[k] += n; c.mu.Unlock() }
 func (c *Collector) AddDistinct(n int64)        { c.mu.Lock(); c.r.DistinctCount += n; c.mu.Unlock() }
-func (c *Collector) AddEvaluations(n int64)     { c.progress.Add(1); c.mu.Lock(); c.r.Evaluations += n; c.mu.Unlock() }
+func (c *Collector) AddEvaluations(n int64) {
+	c.progress.Add(1)
+	c.mu.Lock()
+	c.r.Evaluations += n
+	c.mu.Unlock()
+}
 
 // Case counts one evaluated case; key identifies it canonically; nontrivial
 // says whether it counts towards distinct_nontrivial.
